@@ -17,16 +17,18 @@ ID = 'C17'
 TITLE = 'bitemporal store: reading as of T sees exactly what had been published by T'
 STATEMENT = ('bi_read(store, asof=T) = per date the latest non-NaN value published with stamp <= T (merge order breaks ties), '
              'no row for dates first published after T; what=0 = first published value; re-merging a stored version changes no read')
-LEAN_FILES = ['Basic', 'TSBasic', 'Bitemp', 'BitempDriver', 'BitempLemmas', 'C17']
+LEAN_FILES = ['Basic', 'TSBasic', 'Bitemp', 'BitempDriver', 'BitempLemmas', 'BitempInv', 'BitempFrames', 'BitempCols', 'BitempFirstS', 'BitempEmb', 'C17']
 RULE = ('distinct protocol lines (a merge, a read or a spec read inside a publication history) on which the implementation '
         'returned a non-empty frame / series')
 TRUSTED = ['correspondence harness (pv.engine, pv.proto) and generators of pv.props.c17',
            'Lean driver parser/printer (PygModel/Basic.lean, TSBasic.lean, BitempDriver.lean)']
 ASSUMPTIONS = ['pandas: sort_values(kind="stable") is a stable sort; groupby(index) yields groups in ascending key order with rows in frame order; '
                'ffill, drop_duplicates(keep="last"), concat, boolean row selection behave as the reference functions of PygModel/Bitemp.lean',
-               'only single-column (series) versions stamped with one exact date each (Bi(ts, date)) are modelled; bump / "shift" stamps, '
-               'multi-column frames, bi_asof and string `what` are not',
-               'every version has a strictly increasing (duplicate-free) date index']
+               'modelled: series versions stamped with one date (Bi(ts, date)), with "shift" and with bumps of whole days (the wall clock '
+               'dt() that Bi reads is replaced by the `now` of the protocol line while Bi runs), versions with unsorted or repeated dates, '
+               'what = int | "last" | "first", frames with 2-3 value columns sharing one column set; not modelled: business-day / month '
+               'bumps (calendar), frames with mixed column sets (_column_names), bi_asof (raises KeyError on every bitemporal frame '
+               'under pandas 3), bi_read(asof=<bitemporal frame>), existing_data policies, tz-aware times']
 
 D0 = datetime.datetime(2020, 1, 1)
 S0 = datetime.datetime(2021, 1, 1)
@@ -81,6 +83,44 @@ def spell(t, spelling):
     if spelling == 'datetime64':
         return np.datetime64(t)
     raise ValueError(spelling)
+
+
+def reads_line(t2, sel):
+    return '(bitemp reads %s %s)' % ('N' if t2 is None else enc(stamp(t2)), enc(sel))
+
+
+def shift_line(now, pairs):
+    return '(bitemp mergeshift %s %s)' % (enc(now), enc_ts(pairs))
+
+
+def bump_line(days, now, pairs):
+    return '(bitemp mergebump I:%d %s %s)' % (days, enc(now), enc_ts(pairs))
+
+
+def enc_tsf(rows):
+    return '(L' + ''.join(' (T %s (L%s))' % (enc(date(i)), ''.join(' ' + ('F:nan' if v is None else 'I:%d' % v) for v in vs))
+                          for i, vs in rows) + ')'
+
+
+def fmerge_line(k, rows):
+    return '(bitemp fmerge %s %s)' % (enc(stamp(2 * k)), enc_tsf(rows))
+
+
+def fread_line(t2, what):
+    return '(bitemp fread %s I:%d)' % ('N' if t2 is None else enc(stamp(t2)), what)
+
+
+def freads_line(t2, sel, width):
+    return '(bitemp freads %s %s I:%d)' % ('N' if t2 is None else enc(stamp(t2)), enc(sel), width)
+
+
+def read_at(t, what):
+    """a read at an arbitrary datetime (bump / shift histories: the stamps are not on the 2-day grid)"""
+    return '(bitemp read %s I:%d)' % ('N' if t is None else enc(t), what)
+
+
+def spec_at(t):
+    return '(bitemp spec %s)' % ('N' if t is None else enc(t))
 
 
 def spec_line(t2):
@@ -160,6 +200,8 @@ def history_case(rng, ndates, ordered, idem):
             lines.append(read_line(rng.choice(T), rng.choice([1, 2, -2, -3, 7, -9])))
         if rng.random() < 0.5:
             lines.append(read_line(rng.choice(T), rng.choice([-1, -1, 0]), rng.choice(SPELLINGS)))
+        if rng.random() < 0.5:
+            lines.append(reads_line(rng.choice(T), rng.choice(['last', 'last', 'first'])))
     tag = 'h%d-%s' % (ndates, kind)
     if idem:
         # re-merge a version that is in the store: the one merged last (always claimed by the property)
@@ -189,8 +231,156 @@ def batch_case(rng, ndates):
     return dict(tag='h%d-batches' % ndates, lines=lines, ordered=True)
 
 
+def index_case(rng, ndates):
+    """versions whose index is not sorted, or holds a date twice (item 3 of g4).  Unsorted, duplicate-free versions are partial
+    series over the set of dates like any other (inside the quantifier); a date held twice by a LATER version is read as two
+    publications (theorem read_spec_any_index, still compared with the log fold); a date held twice by the FIRST version is not
+    a series over a set of dates - the code returns that frame as it is - correspondence only."""
+    nver = rng.choice([2, 3, 4, 5])
+    hist = gen_history(rng, ndates, nver, True, nonempty_start=True)
+    kind = rng.choice(['shuffled', 'shuffled', 'dup-later', 'dup-first'])
+    if kind == 'dup-first' and ndates > 5:
+        # a first version with a repeated date is stored as it is; with more than ~16 rows bi_read's own (unstable) sort_values
+        # then orders the equal-stamp rows of that date arbitrarily - outside the quantifier, not generated
+        kind = 'dup-later'
+    out = []
+    for j, (k, pairs) in enumerate(hist):
+        pairs = list(pairs)
+        if kind == 'dup-later' and j > 0 or kind == 'dup-first' and j == 0:
+            for _ in range(rng.choice([1, 1, 2])):
+                i = rng.choice(pairs)[0] if pairs else rng.randrange(ndates)
+                pairs.insert(rng.randrange(len(pairs) + 1), (i, rng.choice([None, 1, 2, 3, 4, 5])))
+        if rng.random() < 0.8:
+            rng.shuffle(pairs)
+        out.append((k, pairs))
+    ordered = kind != 'dup-first'
+    T = read_times(out)
+    lines = []
+    for j, (k, pairs) in enumerate(out):
+        lines.append(merge_line(k, pairs))
+        for t in (T if j == len(out) - 1 else rng.sample(T, min(len(T), 2))):
+            lines.append(read_line(t, -1))
+            if ordered:
+                lines.append(spec_line(t))
+            lines.append(read_line(t, 0))
+            lines.append(reads_line(t, 'last'))
+    return dict(tag='h%d-index-%s' % (ndates, kind), lines=lines, ordered=ordered)
+
+
+def _py_stamps(kind, arg, now, pairs):
+    """the stamps Bi gives (mirrors the model; used only to classify a generated history as per-date ordered or not)"""
+    if kind == 'shift':
+        ds = [date(i) for i, _ in pairs]
+        return ds[1:] + [now]
+    return [min(date(i) + arg * DAY, now) for i, _ in pairs]
+
+
+def stamped_case(rng, ndates, kind):
+    """Bi with a bump of whole days / with 'shift': every row has its own stamp.  The creation times `now` (the wall clock Bi
+    reads, set by the runner) do not decrease.  Dates beyond `now` (forecast dates) exercise the cap."""
+    nver = rng.choice([1, 2, 3, 4])
+    days = rng.choice([0, 1, 1, 2, 3, 7, -1])
+    now = D0 + rng.choice([0, 1, 2, ndates // 2]) * DAY + datetime.timedelta(hours=rng.choice([0, 6]))
+    lines, per, ok, T = [], {}, True, set([None])
+    for j in range(nver):
+        now = now + rng.choice([0, 0, 1, 2, 5]) * DAY
+        ds = sorted(rng.sample(range(ndates), rng.randrange(1, ndates + 1)))
+        if rng.random() < 0.15:
+            rng.shuffle(ds)
+        pairs = [(i, rng.choice([None, 1, 2, 3, 4, 5])) for i in ds]
+        if j > 0 and kind == 'shift' and rng.random() < 0.15:
+            pairs.append((rng.choice(ds), 3))                      # a date twice in a later version (Bi with a bump raises on it)
+        st = _py_stamps(kind, days, now, pairs)
+        for (i, _), u in zip(pairs, st):
+            if i in per and per[i] > u:
+                ok = False
+            per[i] = max(per.get(i, u), u)
+            T.add(u)
+            T.add(u - DAY / 2)
+        lines.append(shift_line(now, pairs) if kind == 'shift' else bump_line(days, now, pairs))
+        for t in rng.sample(sorted(T, key=lambda t: (t is not None, t)), min(len(T), 4)):
+            lines.append(read_at(t, -1))
+            if ok:
+                lines.append(spec_at(t))
+            lines.append(read_at(t, 0))
+    lines += [read_at(None, -1), read_at(None, 0), reads_line(None, 'last'), reads_line(None, 'first')]
+    if ok:
+        lines.append(spec_at(None))
+    return dict(tag='h%d-%s%s' % (ndates, kind, '' if ok else '-unordered'), lines=lines, ordered=ok)
+
+
+def gen_frame_history(rng, ndates, nver, width):
+    hist, k, seen = [], rng.choice([0, 1]), {}
+    for j in range(nver):
+        if j > 0 and rng.random() >= 0.35:
+            k += rng.choice([1, 1, 2])
+        p = rng.choice([0.4, 0.7, 1.0])
+        rows = []
+        for i in range(ndates):
+            if rng.random() < p:
+                past = seen.setdefault(i, [[] for _ in range(width)])
+                vs = []
+                for c in range(width):
+                    r = rng.random()
+                    if r < 0.2:
+                        v = None
+                    elif r < 0.65 and past[c]:
+                        v = past[c][-1]                 # this column repeats (the others may not)
+                    else:
+                        v = rng.choice([1, 2, 3, 4, 5])
+                    if v is not None:
+                        past[c].append(v)
+                    vs.append(v)
+                rows.append((i, vs))
+        hist.append((k, rows))
+    return hist
+
+
+def frame_case(rng, ndates, width):
+    """frames with 2-3 value columns: rows where only some columns repeat, partial NaN rows, same-stamp versions"""
+    hist = gen_frame_history(rng, ndates, rng.choice([2, 3, 4, 5]), width)
+    if not hist[0][1]:
+        hist[0] = (hist[0][0], [(0, [1] * width)])
+    T = read_times(hist)
+    lines = []
+    for j, (k, rows) in enumerate(hist):
+        lines.append(fmerge_line(k, rows))
+        for t in (T if j == len(hist) - 1 else rng.sample(T, min(len(T), 2))):
+            lines += [fread_line(t, -1), fread_line(t, 0), freads_line(t, 'last', width)]
+        if rng.random() < 0.4:
+            lines.append(fread_line(rng.choice(T), rng.choice([1, -2, 2, -3])))
+        if rng.random() < 0.4:
+            lines.append(freads_line(rng.choice(T), 'first', width))
+    return dict(tag='f%d-w%d' % (ndates, width), lines=lines, ordered=True)
+
+
 def generate(rng, tier):
     n = 20 if tier == 'quick' else 400
+    for nd in (3, 5, 25):
+        for _ in range(max(3, n // 5)):
+            yield index_case(rng, nd)
+        for _ in range(max(3, n // 5)):
+            yield stamped_case(rng, nd, 'bump')
+        for _ in range(max(3, n // 6)):
+            yield stamped_case(rng, nd, 'shift')
+    for nd in (2, 4, 12):
+        for w in (2, 3):
+            for _ in range(max(3, n // 5)):
+                yield frame_case(rng, nd, w)
+    # the witnesses of the frame theorems (frame_default_read_nan_overrides, frame_last_loses_value) and a one-column frame
+    yield dict(tag='special-frame-nan-column', ordered=True, lines=[
+        fmerge_line(0, [(0, [1, 1])]), fmerge_line(1, [(0, [None, 2])]), fread_line(None, -1), freads_line(None, 'last', 2),
+        fread_line(None, 0), fread_line(1, -1)])
+    yield dict(tag='special-frame-same-stamp', ordered=True, lines=[
+        fmerge_line(0, [(0, [1, 1])]), fmerge_line(1, [(0, [5, 1])]), fmerge_line(1, [(0, [None, 2])]), fread_line(None, -1),
+        freads_line(None, 'last', 2), freads_line(None, 'first', 2)])
+    yield dict(tag='special-frame-one-column', ordered=True, lines=[
+        fmerge_line(0, [(0, [1]), (1, [None])]), fmerge_line(1, [(0, [1]), (1, [2])]), fmerge_line(1, [(0, [None]), (1, [3])]),
+        fread_line(None, -1), fread_line(None, 0), freads_line(None, 'last', 1)])
+    # the store that holds two consecutive equal values (no_consecutive_repeats_fails)
+    yield dict(tag='special-consecutive-repeat', ordered=True, lines=[
+        merge_line(0, [(0, 3)]), merge_line(1, [(0, 5)]), merge_line(2, [(0, 6)]), merge_line(2, [(0, 5)]),
+        read_line(None, -1), read_line(None, -2), reads_line(None, 'last'), reads_line(None, 'first')])
     for nd in (3, 5, 25):
         for _ in range(max(4, n // 5)):
             yield batch_case(rng, nd)
@@ -233,7 +423,60 @@ def generate(rng, tier):
 # ---------------------------------------------------------------- implementation runner
 
 def new_state():
-    return dict(store=None, mode=None, frame=None)
+    return dict(store=None, mode=None, frame=None, fstore=None)
+
+
+class _clock(object):
+    """Bi(ts, 'shift' | bump) reads the wall clock through dt(); while Bi runs the clock is the `now` of the protocol line"""
+
+    def __init__(self, now):
+        self.now = now
+
+    def __enter__(self):
+        import logging
+        import pyg_base._bitemporal as B
+        logging.getLogger('pyg').setLevel(logging.ERROR)      # dt_bump warns about every unsorted index on stderr
+        self.B, self.real = B, B.dt
+        real, now = self.real, self.now
+        B.dt = lambda *a, **k: (now if not a and not k else real(*a, **k))
+
+    def __exit__(self, *exc):
+        self.B.dt = self.real
+
+
+COLS = ['a', 'b', 'c']
+
+
+def _frame(rows, width):
+    idx = pd.DatetimeIndex([t for t, _ in rows])
+    return pd.DataFrame({COLS[c]: np.array([np.nan if vs[c] is None else float(vs[c]) for _, vs in rows], dtype=float)
+                         for c in range(width)}, index=idx)
+
+
+def _dec_tsf(sx):
+    out = []
+    for item in sx[1:]:
+        vs = [proto.dec(x) for x in item[2][1:]]
+        out.append((proto.dec(item[1]), [None if (isinstance(v, float) and v != v) else v for v in vs]))
+    return out
+
+
+def _width(df):
+    return len([c for c in COLS if c in df.columns])
+
+
+def enc_fstore(df):
+    from pyg_base._bitemporal import _updated
+    w = _width(df)
+    return '(L' + ''.join(' (T %s %s (L%s))' % (_enc_time(t), _enc_time(u), ''.join(' ' + _enc_val(df[COLS[c]].values[i]) for c in range(w)))
+                          for i, (t, u) in enumerate(zip(df.index, df[_updated].values))) + ')'
+
+
+def enc_frame(r, w):
+    if not isinstance(r, pd.DataFrame):
+        raise proto.Unencodable('bi_read returned %s' % type(r).__name__)
+    return '(L' + ''.join(' (T %s (L%s))' % (_enc_time(t), ''.join(' ' + _enc_val(r[COLS[c]].values[i]) for c in range(w)))
+                          for i, t in enumerate(r.index)) + ')'
 
 
 def _version(state, pairs, line):
@@ -305,6 +548,28 @@ def run_line(state, sx):
         news = [Bi(_series(_dec_ts(item[2])), proto.dec(item[1])) for item in args[0][1:]]
         state['store'] = bi_merge(state['store'], news)
         return 'ok N' if state['store'] is None else 'ok ' + enc_store(state['store'])
+    if op in ('mergeshift', 'mergebump'):
+        now = proto.dec(args[-2])
+        ts = _series(_dec_ts(args[-1]))
+        with _clock(now):
+            new = Bi(ts, 'shift' if op == 'mergeshift' else proto.dec(args[0]))
+        state['store'] = bi_merge(state['store'], new)
+        return 'ok ' + enc_store(state['store'])
+    if op == 'reads':
+        asof = None if args[0] == 'N' else proto.dec(args[0])
+        if state['store'] is None:
+            return 'ok N'
+        return 'ok ' + enc_series(bi_read(state['store'], asof, proto.dec(args[1])))
+    if op == 'fmerge':
+        rows = _dec_tsf(args[1])
+        w = len(rows[0][1]) if rows else (_width(state['fstore']) if state['fstore'] is not None else 2)
+        state['fstore'] = bi_merge(state['fstore'], Bi(_frame(rows, w), proto.dec(args[0])))
+        return 'ok ' + enc_fstore(state['fstore'])
+    if op in ('fread', 'freads'):
+        asof = None if args[0] == 'N' else proto.dec(args[0])
+        if state['fstore'] is None:
+            return 'ok N'
+        return 'ok ' + enc_frame(bi_read(state['fstore'], asof, proto.dec(args[1])), _width(state['fstore']))
     if op in ('read', 'spec'):
         asof = None if args[0] == 'N' else proto.dec(args[0])
         what = proto.dec(args[1]) if op == 'read' else -1
@@ -334,6 +599,8 @@ def compare(case, i, line, ir, mr):
         t = proto.dec(sx[2])
         return 'bi_read(asof=%r, what=%s) is not the read as of %s: implementation %s, model %s' % (
             spell(t, proto.dec(sx[4])), sx[3][2:], t, ir, mr)
+    if op == 'reads' and proto.dec(sx[3]) == 'last':
+        return "bi_read(what='last'): implementation %s, model (proved equal to the default read and the log fold) %s" % (ir, mr)
     if op == 'read' and sx[3] in ('I:-1', 'I:0'):
         return 'bi_read(what=%s): implementation %s, model (proved equal to the log fold) %s' % (sx[3][2:], ir, mr)
     return ('divergence', '%s: implementation %s, model %s' % (op, ir, mr))
@@ -423,7 +690,7 @@ def _read(store, t2, what, spelling=None):
     from pyg_base._bitemporal import bi_read
     asof = None if t2 is None else stamp(t2)
     r = bi_read(store, asof if spelling is None or asof is None else spell(asof, spelling), what)
-    return {int((pd.Timestamp(t).to_pydatetime() - D0) // DAY): (None if v != v else (int(v) if float(v) == int(v) else float(v)))
+    return {int((pd.Timestamp(t).to_pydatetime() - D0) // DAY): (None if (v is None or v != v) else (int(v) if float(v) == int(v) else float(v)))
             for t, v in zip(r.index, r.values)}, len(r)
 
 
@@ -462,6 +729,13 @@ def laws(rng, tier, ctx):
                                 first_bad = Finding('violation', dict(tag='law-read-first-literal', lines=lines + [read_line(t, 0)], atomic=True,
                                                                      ordered=True, got=sorted(got.items())),
                                                     'bi_read(asof=%s, what=0) = %s but the first values published are %s' % (t, got, lit))
+            # what='last' is the default read (theorem read_str_last)
+            for t in T:
+                count += 1
+                a, b = _read(store, t, -1)[0], _read(store, t, 'last')[0]
+                if a != b and bad is None:
+                    bad = ('law-str-last', lines + [reads_line(t, 'last')],
+                           "bi_read(asof=%s, what='last') = %s but the default read is %s" % (t, b, a))
             # the read time in another spelling is the same read time
             for t in T:
                 if t is not None:
@@ -504,6 +778,36 @@ def laws(rng, tier, ctx):
                 yield Finding('violation', dict(tag=bad[0], lines=bad[1], atomic=True, ordered=True), bad[2])
             if first_bad is not None:
                 yield first_bad
+    # frames, column by column (theorem frame_read_last_columns): when per date every version carries a new stamp, what='last'
+    # is in every column the fold of that column's publications
+    from pyg_base._bitemporal import bi_read
+    for nd in (2, 4, 12):
+        for w in (2, 3):
+            for _ in range(max(2, m // 4)):
+                hist = gen_frame_history(rng, nd, rng.choice([2, 3, 4, 5]), w)
+                hist = [(j, rows) for j, (_, rows) in enumerate(hist)]            # distinct stamps
+                if not hist[0][1]:
+                    hist[0] = (0, [(0, [1] * w)])
+                store, lines, bad = None, [], None
+                for k, rows in hist:
+                    lines.append(fmerge_line(k, rows))
+                    store = bi_merge(store, Bi(_frame([(date(i), vs) for i, vs in rows], w), stamp(2 * k)))
+                for t in read_times(hist):
+                    count += 1
+                    r = bi_read(store, None if t is None else stamp(t), 'last')
+                    got = {int((pd.Timestamp(x).to_pydatetime() - D0) // DAY):
+                           [None if (v is None or v != v) else int(v) for v in (r[COLS[c]].values[i] for c in range(w))] for i, x in enumerate(r.index)}
+                    want = {}
+                    for k, rows in hist:
+                        if t is None or 2 * k <= t:
+                            for i, vs in rows:
+                                cur = want.setdefault(i, [None] * w)
+                                want[i] = [vs[c] if vs[c] is not None else cur[c] for c in range(w)]
+                    if got != want and bad is None:
+                        bad = (lines + [freads_line(t, 'last', w)],
+                               "bi_read(frame, asof=%s, what='last') = %s but column by column the publication log gives %s" % (t, got, want))
+                if bad is not None:
+                    yield Finding('violation', dict(tag='law-frame-last-columns', lines=bad[0], atomic=True, ordered=True), bad[1])
     yield count
 
 
